@@ -415,3 +415,248 @@ def register(M):
             raise AbsRaise(ExcVal('AttributeError', ('total_seconds',)), node)
         return v.like([El(e.d, e.m) for e in v.els()], dtype='f8', unit=None)
     MT[(Vec, 'total_seconds')] = _total_seconds
+
+
+def register2(M):
+    """second batch: API seen in refactoring-style seeded changes"""
+    import itertools
+    E = M.ext_call
+    MT = M.methods
+    from .models_np import IndexSet, concrete_int
+
+    def as_vec(interp, v, node):
+        if isinstance(v, Vec):
+            return v
+        if isinstance(v, (list, tuple)):
+            return M.to_array(interp, v, node)
+        return None
+
+    def kwarg(args, kw, i, name, default=None):
+        return args[i] if len(args) > i else kw.get(name, default)
+
+    def conc_list(interp, v, node, what):
+        a = as_vec(interp, v, node)
+        if a is None:
+            raise AnalysisError(f'{what}: argument not modelled', node)
+        out = []
+        for e in a.els():
+            if not X.is_num(e.d):
+                raise AnalysisError(f'{what} needs concrete values', node)
+            out.append(e.d[1])
+        return out
+
+    # np.digitize(x, bins, right=False): index i such that bins[i-1] <= x < bins[i] (increasing bins) or, for
+    # decreasing bins, bins[i-1] > x >= bins[i]; right=True moves the closed end.  bins must be concrete and monotonic.
+    def digitize(interp, args, kw, node):
+        x = as_vec(interp, args[0], node)
+        bins = conc_list(interp, args[1], node, 'np.digitize bins')
+        right = bool(kwarg(args, kw, 2, 'right', False))
+        inc = all(a <= b for a, b in zip(bins, bins[1:]))
+        dec = all(a >= b for a, b in zip(bins, bins[1:]))
+        if not (inc or dec):
+            raise AbsRaise(ExcVal('ValueError', ('bins must be monotonically increasing or decreasing',)), node)
+        out = []
+        for e in x.els():
+            d = num_of_el(e.d)
+            if d == X.NAN:
+                out.append(El(X.num(len(bins) if inc else 0), e.m))
+                continue
+            if inc:
+                # number of bins b with b <= x (right=False) or b < x (right=True)
+                terms = [X.ite(X.cmp('ge' if not right else 'gt', d, X.num(b)), X.num(1), X.num(0)) for b in bins]
+            else:
+                # decreasing bins: number of bins b with b > x (right=False) or b >= x (right=True)
+                terms = [X.ite(X.cmp('lt' if not right else 'le', d, X.num(b)), X.num(1), X.num(0)) for b in bins]
+            out.append(El(count_sum(terms), e.m))
+        return Vec.fresh(out, kind='nd', dtype='i8')
+    E['numpy.digitize'] = digitize
+
+    def count_sum(terms):
+        """sum of 0/1 ite terms as a nested ite over the count (keeps the element an ite tree over formulas)"""
+        def go(i, acc):
+            if i == len(terms):
+                return X.num(acc)
+            t = terms[i]
+            if X.is_num(t):
+                return go(i + 1, acc + int(t[1]))
+            return X.ite(t[1], go(i + 1, acc + 1), go(i + 1, acc))
+        return go(0, 0)
+
+    # searchsorted on concrete, sorted-or-not data: numpy bisects assuming sorted input
+    def searchsorted(interp, arr, value, side, node):
+        import bisect
+        xs = conc_list(interp, arr, node, 'searchsorted')
+        o = as_operand(value)
+        if o is None or not X.is_num(o[1]):
+            raise AnalysisError('searchsorted needs a concrete value', node)
+        v = o[1][1]
+        lo, hi = 0, len(xs)
+        while lo < hi:          # the bisection numpy performs, also on unsorted input
+            mid = (lo + hi) // 2
+            if (xs[mid] < v) if side == 'left' else (xs[mid] <= v):
+                lo = mid + 1
+            else:
+                hi = mid
+        return lo
+    E['numpy.searchsorted'] = lambda it, a, k, n: searchsorted(it, a[0], a[1], kwarg(a, k, 2, 'side', 'left'), n)
+    MT[(Vec, 'searchsorted')] = lambda it, v, a, k, n: searchsorted(it, v, a[0], kwarg(a, k, 1, 'side', 'left'), n)
+
+    def accumulate(fn):
+        def f(interp, args, kw, node):
+            a = as_vec(interp, args[0], node)
+            out, acc = [], None
+            for e in a.els():
+                d = num_of_el(e.d)
+                acc = d if acc is None else fn(acc, d)
+                out.append(El(acc, e.m))
+            return a.like(out)
+        return f
+    E['numpy.maximum.accumulate'] = accumulate(X.max_)
+    E['numpy.minimum.accumulate'] = accumulate(X.min_)
+    E['numpy.add.accumulate'] = accumulate(X.add)
+
+    def sliding_window_view(interp, args, kw, node):
+        a = as_vec(interp, args[0], node)
+        w = kwarg(args, kw, 1, 'window_shape')
+        if isinstance(w, (tuple, list)):
+            w = w[0]
+        w = concrete_int(M, w, node)
+        n = len(a)
+        if w > n:
+            raise AbsRaise(ExcVal('ValueError', ('window_shape cannot be larger than input array shape',)), node)
+        if w <= 0:
+            raise AbsRaise(ExcVal('ValueError', ('window_shape must be positive',)), node)
+        rows = [a.view(a.idx[i:i + w]) for i in range(n - w + 1)]
+        return Vec2(rows, w, a.kind, a.dtype)
+    E['numpy.lib.stride_tricks.sliding_window_view'] = sliding_window_view
+
+    def convolve(interp, args, kw, node):
+        a = as_vec(interp, args[0], node)
+        v = conc_list(interp, args[1], node, 'np.convolve kernel')
+        mode = kwarg(args, kw, 2, 'mode', 'full')
+        n, m = len(a), len(v)
+        if n == 0 or m == 0:
+            raise AbsRaise(ExcVal('ValueError', ('a cannot be empty' if n == 0 else 'v cannot be empty',)), node)
+        els = [num_of_el(e.d) for e in a.els()]
+        full = []
+        for k in range(n + m - 1):
+            acc = X.num(0)
+            for j in range(m):
+                i = k - j
+                if 0 <= i < n and v[j] != 0:
+                    acc = X.add(acc, X.scale(els[i], v[j]))
+                elif 0 <= i < n and els[i] in (X.NAN, X.ANY):
+                    acc = X.add(acc, els[i])      # 0 * nan = nan
+            full.append(El(acc, False))
+        if mode == 'full':
+            out = full
+        elif mode == 'same':
+            ln = max(n, m)
+            start = (len(full) - ln) // 2
+            out = full[start:start + ln]
+        elif mode == 'valid':
+            ln = max(n, m) - min(n, m) + 1
+            start = min(n, m) - 1
+            out = full[start:start + ln]
+        else:
+            raise AbsRaise(ExcVal('ValueError', ('mode must be full, same or valid',)), node)
+        return Vec.fresh(out, kind='nd', dtype='f8')
+    E['numpy.convolve'] = convolve
+
+    def fix_invalid(interp, args, kw, node):
+        """np.ma.fix_invalid(a, copy=True, fill_value=None): masks NaN/inf AND overwrites the data there with the fill value;
+        with copy=False an ndarray argument is modified in place (library fact)"""
+        a = args[0]
+        copy = kwarg(args, kw, 2, 'copy', True)
+        fv = kwarg(args, kw, 3, 'fill_value', None)
+        v = as_vec(interp, a, node)
+        fill = X.num(10 ** 20) if fv is None else num_of_el(as_operand(fv)[1])
+        target = v if (copy is False and isinstance(a, Vec)) else v.copy()
+        if target is v and getattr(v.back, 'readonly', False):
+            raise AbsRaise(ExcVal('ValueError', ('assignment destination is read-only',)), node)
+        out = Vec(target.back, list(target.idx), 'ma', target.dtype, target.unit)
+        for i in range(len(out)):
+            e = out.el(i)
+            if e.d == X.NAN:
+                if target is v and v.back.owner is not None:
+                    interp.event('mutation', owner=v.back.owner, what='np.ma.fix_invalid(copy=False) overwrites NaN in place', node=node)
+                out.set(i, El(fill, True))
+            else:
+                out.set(i, El(e.d, e.m if v.kind == 'ma' else False))
+        return out
+    E['numpy.ma.fix_invalid'] = fix_invalid
+
+    # pandas Series reductions (NaN skipped; std is the sample deviation)
+    def series_reduce(name):
+        def f(interp, v, args, kw, node):
+            vals = [num_of_el(e.d) for e in v.els() if e.d != X.NAN and e.m is not True]
+            if v.kind not in ('series', 'index', 'dtindex'):
+                return E['numpy.' + {'std': 'std'}.get(name, name)](interp, [v] + list(args), kw, node)
+            if not vals:
+                return Sc(X.NAN, 'f8')
+            if name == 'std':
+                ddof = kw.get('ddof', 1)
+                if len(vals) - ddof <= 0:
+                    return Sc(X.NAN, 'f8')
+                return Sc(X.red('std_sample' if ddof == 1 else 'std', vals), 'f8')
+            return Sc(X.red(name, vals), v.dtype, v.unit)
+        return f
+    for nm in ('min', 'max', 'mean', 'std', 'sum', 'median'):
+        MT[(Vec, nm)] = series_reduce(nm)
+
+    class FInfo:
+        def __init__(self, bits=64):
+            self.eps = Fr(2) ** -52 if bits == 64 else Fr(2) ** -23
+            self.max = Fr(2) ** 1023 if bits == 64 else Fr(2) ** 127
+            self.tiny = Fr(2) ** -1022
+
+        def abs_getattr(self, interp, name, node):
+            if name in ('eps', 'max', 'tiny', 'resolution'):
+                return getattr(self, name if name != 'resolution' else 'eps')
+            if name == 'min':
+                return -self.max
+            raise AnalysisError(f'finfo.{name} not modelled', node)
+    E['numpy.finfo'] = lambda it, a, k, n: FInfo()
+    E['numpy.spacing'] = lambda it, a, k, n: (_ for _ in ()).throw(AnalysisError('np.spacing (float spacing) is outside the exact-arithmetic model', n))
+
+    E['operator.attrgetter'] = lambda it, a, k, n: PyCallable(lambda it2, a2, k2, n2, _name=a[0]: it2.getattr(a2[0], _name, n2), 'attrgetter')
+    E['operator.itemgetter'] = lambda it, a, k, n: PyCallable(lambda it2, a2, k2, n2, _key=a[0]: it2.models.getitem(it2, a2[0], _key, n2), 'itemgetter')
+
+    def groupby(interp, args, kw, node):
+        """itertools.groupby: consecutive runs of equal keys"""
+        items = interp.iterate(args[0], node)
+        key = kwarg(args, kw, 1, 'key')
+        out = []
+        from .models_np import eq_model
+        for x in items:
+            k = interp.call(key, [x], {}, node) if key is not None else x
+            if out and (out[-1][0] is k or eq_model(M, interp, out[-1][0], k, node)):
+                out[-1][1].append(x)
+            else:
+                out.append((k, [x]))
+        return [(k, list(g)) for k, g in out]
+    E['itertools.groupby'] = groupby
+
+    # transcendental functions: uninterpreted (exact arithmetic cannot evaluate them); identity is structural
+    def uninterpreted(name):
+        def f(interp, args, kw, node):
+            vs = [as_vec(interp, a, node) for a in args]
+            if any(v is not None for v in vs):
+                n = max(len(v) for v in vs if v is not None)
+                out = []
+                for i in range(n):
+                    es = [(v.el(i) if v is not None else El(as_operand(a)[1], False)) for v, a in zip(vs, args)]
+                    m = False
+                    for e in es:
+                        m = m_or(m, e.m)
+                    out.append(El(X.fn(name, *[num_of_el(e.d) for e in es]), m))
+                tmpl = next(v for v in vs if v is not None)
+                return tmpl.like(out, dtype='f8')
+            ds = [num_of_el(as_operand(a)[1]) for a in args]
+            return Sc(X.fn(name, *ds), 'f8')
+        return f
+    for nm in ('sin', 'cos', 'tan', 'arcsin', 'arccos', 'arctan', 'arctan2', 'radians', 'deg2rad', 'degrees', 'rad2deg', 'exp', 'log', 'log10',
+               'hypot', 'power', 'sinh', 'cosh', 'tanh'):
+        E['numpy.' + nm] = uninterpreted(nm)
+    for nm in ('sin', 'cos', 'tan', 'asin', 'acos', 'atan', 'atan2', 'radians', 'degrees', 'exp', 'log', 'hypot'):
+        E['math.' + nm] = uninterpreted(nm)
